@@ -49,11 +49,16 @@ def main():
     ap.add_argument("--patch")
     ap.add_argument("--name")
     ap.add_argument("--skip-confirm", action="store_true")
+    ap.add_argument("--recheck", action="store_true", help="re-run the checks against the stored patch (worktree gone); keeps first_run_caught")
     a = ap.parse_args()
     wt = "/tmp/seed/" + a.id
     name = a.name or a.id
     pid = a.id[:3]
     meta = {"breaks_property": pid, "scratch_worktree": wt, "round": 1 + (ord(a.id[3]) - ord("a") if len(a.id) > 3 else 0)}
+    if a.recheck:
+        a.skip_confirm = True
+        a.patch = os.path.join(VERIF, "seeded", name, "patch.diff")
+        meta = {}
     if not a.skip_confirm:
         rc, out = sh("cargo build --offline 2>&1 | tail -2", wt, {"CARGO_TARGET_DIR": wt + "/target"})
         meta["build_with_change"] = "ok" if "Finished" in out else out[-300:]
@@ -101,8 +106,9 @@ def main():
     meta["caught_by_own_property_check"] = pid in fired and "violations" in fired.get(pid, {})
     dst = os.path.join(VERIF, "seeded", name)
     os.makedirs(dst, exist_ok=True)
-    shutil.copy(patch, os.path.join(dst, "patch.diff"))
-    shutil.copy(os.path.join(wt, "tests", "seed_demo.rs"), os.path.join(dst, "seed_demo.rs"))
+    if not a.recheck:
+        shutil.copy(patch, os.path.join(dst, "patch.diff"))
+        shutil.copy(os.path.join(wt, "tests", "seed_demo.rs"), os.path.join(dst, "seed_demo.rs"))
     rep = os.path.join(wt, "REPORT.md")
     if os.path.exists(rep):
         shutil.copy(rep, os.path.join(dst, "AGENT_REPORT.md"))
